@@ -359,6 +359,17 @@ Definition step (c : cfg) (s : wstate) (o : op) : wstate * out :=
   | OHeightErr => (die s, {| o_fwd := []; o_batch := []; o_nreq := 0; o_flag := FFatal |})
   end.
 
+(* one tick of _fetchHeight: gated by blockPollerEnabled; the chain-info request may fail (error on errC); the height is
+   always handed to the event loop ("always send the block height to avoid having enough block confirmations but not
+   enough confirmation time").  Expressed through the steps above: nothing / OHeightErr / OTick. *)
+Definition fetch_height_tick (c : cfg) (s : wstate) (ans : option Z) (now : Z) (mc : Z -> option bool) (hd : Z -> option header) : wstate * out :=
+  if w_dead s then (s, out0)
+  else if negb (w_enabled s) then (s, out0)
+  else match ans with
+       | None => step c s OHeightErr
+       | Some height => step c s (OTick height now mc hd)
+       end.
+
 Fixpoint run (c : cfg) (s : wstate) (ops : list op) : list out * wstate :=
   match ops with
   | [] => ([], s)
